@@ -45,7 +45,7 @@ ASSUMPTIONS = [
     "sympy evaluates Polar's returned expressions correctly at integer n / substitutes erfinv(2p-1) -> z/sqrt(2) correctly",
 ]
 TIMEOUT = {"quick": 60, "thorough": 150}
-DEADLINE = {"quick": 100, "thorough": 1500}
+DEADLINE = {"quick": 100, "thorough": 1000}
 MIN_DECIDING = {"quick": 120, "thorough": 1200}
 NCASES = {"quick": (150, 46, 30), "thorough": (3000, 360, 600)}   # conv, prog, exp
 
